@@ -16,7 +16,7 @@ import (
 
 // G-MSG: messages of a modelled type, populated through dynamicpb.
 
-var vStrings = []string{"a", "héllo wörld", "with \"quotes\" and \\ and / and 'apostrophes'", "line\nbreak\ttab\rcr", "\u0001\u001f\u007f", "日本語😀", "</script><!--", "   sep", " leading and trailing ", strings.Repeat("long ", 60), "{\"json\":[1,2]}", ""}
+var vStrings = []string{"a", "héllo wörld", "with \"quotes\" and \\ and / and 'apostrophes'", "line\nbreak\ttab\rcr", "\u0001\u001f\u007f", "日本語😀", "</script><!--", "   sep", " leading and trailing ", strings.Repeat("long ", 60), "{\"json\":[1,2]}", "replacement \uFFFD char", "\uFFFD", ""}
 var vKeys = []string{"abc", "0123456789abcdefghijAB", "9f1b2c3d-4e5f-6a7b-8c9d-0e1f2a3b4c5d", "key with space", ""}
 var vInt32 = []int64{1, -1, math.MaxInt32, math.MinInt32, 42, 0}
 var vInt64 = []int64{1, -1, math.MaxInt64, math.MinInt64, 1<<53 + 1, -(1<<53 + 1), 0}
@@ -24,7 +24,15 @@ var vUint32 = []uint64{1, math.MaxUint32, 1 << 31, 7, 0}
 var vUint64 = []uint64{1, math.MaxUint64, 1 << 63, 1<<53 + 1, 0}
 var vFloat = []float64{1.5, -2.25, math.MaxFloat32, math.SmallestNonzeroFloat32, 1e-7, 16777216, 0.1, 3.4e38, -1e-38, 0}
 var vDouble = []float64{1.5, -2.25, math.MaxFloat64, math.SmallestNonzeroFloat64, 0.1, 1e21, 1e-7, 123456789.12345679, 1 << 53, 0}
-var vBytes = [][]byte{{0}, {0xff, 0xfe}, {1, 2, 3}, {0xfb, 0xff, 0xbf, 0xfe}, []byte("hello world!?>>"), make([]byte, 64), {}}
+var vBytes = [][]byte{{0}, {0xff, 0xfe}, {1, 2, 3}, {0xfb, 0xff, 0xbf, 0xfe}, []byte("hello world!?>>"), make([]byte, 64), longBytes(4096), longBytes(4097), longBytes(9001), {}}
+
+func longBytes(n int) []byte {
+	b := make([]byte, n)
+	for i := range b {
+		b[i] = byte(i*7 + i/251)
+	}
+	return b
+}
 
 type tsVal struct {
 	sec   int64
@@ -151,7 +159,7 @@ func (g *msgGen) value(tf *tField, fd protoreflect.FieldDescriptor, depth int, p
 	case tf.Kind == kEnum:
 		e := g.model.enum(tf.Ref)
 		g.feat(kEnum, pos)
-		n := g.idx(len(e.Values))
+		n := e.number(g.idx(len(e.Values)))
 		return protoreflect.ValueOfEnum(protoreflect.EnumNumber(n)), true
 	case tf.Kind == kObject || tf.Kind == kOneof:
 		if depth >= g.maxDepth {
@@ -208,7 +216,7 @@ func (g *msgGen) anyPayload(depth int) (proto.Message, string) {
 	return m, name
 }
 
-var vMapKeys = []string{"k", "", "!type", "ключ", "a.b", "with space", "k2", "quo\"te", "back\\slash", "tab\tnl\n", "\x01ctl", "emoji😀", "</script>"}
+var vMapKeys = []string{"k", "", "!type", "ключ", "a.b", "with space", "k2", "quo\"te", "back\\slash", "tab\tnl\n", "\x01ctl", "emoji😀", "</script>", "\uFFFDkey"}
 
 // message builds a message of the modelled type.
 func (g *msgGen) message(full string, depth int) *dynamicpb.Message {
